@@ -24,7 +24,7 @@ from fractions import Fraction
 from xfabsa import core, numeric as N
 from xfabsa.core import AnalysisError
 from xfabsa.api import is_helper
-from xfabsa.poly import Rat
+from xfabsa.poly import Rat, func_atom
 from xfabsa.signatures import SIG
 from xfabsa.symeval import Evaluator, sym_array, Arr, Opaque, Obj, scalar, materialise, RaiseReached, pi_sign, vkey
 
@@ -325,6 +325,9 @@ def analyse_checks_module(ctx):
     U = sym_array("U", (3, 3))
 
     def run_rot(fail):
+        """one run of the check; the k-th comparison site answers "outside its tolerance" when k == fail.  A comparison site is a
+        call of allclose / isclose, or one comparison `|quantity| <= small constant` (element-wise for arrays: all its elements
+        belong to the site and are answered alike) -- the same predicate written out"""
         log = []
         ev = Evaluator(mod, inline=set())
         orig = ev._np_call
@@ -336,6 +339,17 @@ def analyse_checks_module(ctx):
                 return (len(log) - 1) != fail
             return orig(name, args, kwargs, node)
         ev._np_call = hook
+
+        def band(q, t, node):
+            key = ("band", getattr(node, "lineno", 0), getattr(node, "col_offset", 0))
+            for k_, site in enumerate(log):
+                if site[0] == key:
+                    site[1].append((q, t))
+                    return k_ != fail
+            log.append((key, [(q, t)], node))
+            return (len(log) - 1) != fail
+        ev.threshold_policy = band
+        ev.threshold_max = Fraction(1, 100)
         try:
             ev.call_function("_check_rotation_matrix", [U])
             return log, None, None
@@ -355,6 +369,46 @@ def analyse_checks_module(ctx):
             ctx.fail("C20:raise:_check_rotation_matrix:comparison%d" % k, "a failing comparison does not raise", core.loc(mod, node))
         else:
             note_raise("_check_rotation_matrix", exck, rnode)
+        if isinstance(args, tuple) and args and args[0] == "band":
+            # the predicate written out: |quantity| against a constant, element by element
+            items = kwargs
+            wh = core.loc(mod, node)
+            verdict = None
+            absdet = func_atom("abs", Rat.atom("det(U)") - 1)
+            if len(items) == 1 and items[0][0].equals(absdet):
+                verdict, tol = "det", float(items[0][1])
+            elif len(items) == 9:
+                for M_ in (utu, uut):
+                    want_ = {(i, j): func_atom("abs", M_[i][j] - (1 if i == j else 0)) for i in range(3) for j in range(3)}
+                    got_ = {}
+                    for q_, t_ in items:
+                        for ij_, w_ in want_.items():
+                            if ij_ not in got_ and q_.equals(w_):
+                                got_[ij_] = float(t_)
+                                break
+                    if len(got_) == 9:
+                        verdict = "orth"
+                        offs_ = [got_[ij_] for ij_ in got_ if ij_[0] != ij_[1]]
+                        diags_ = [got_[ij_] for ij_ in got_ if ij_[0] == ij_[1]]
+                        break
+            if verdict == "orth":
+                seen["orth"] += 1
+                ctx.ok("C20:predicate:rotation:orthonormal", sample={"predicate": "|U'U - I| <= tolerance, element-wise",
+                                                                     "off_diagonal": max(offs_), "diagonal": max(diags_)})
+                ctx.check(all(TOL_MIN <= x_ <= TOL_MAX for x_ in offs_ + diags_), "C20:predicate:rotation:orthonormal-tolerance",
+                          "tolerance on the entries of U'U is %.3g..%.3g off the diagonal / %.3g..%.3g on it; a valid "
+                          "float32-precision rotation deviates by up to ~4e-7 and must be accepted, a 1e-3 perturbation "
+                          "(>= 5.8e-4) must be rejected: window [%g, %g]" % (min(offs_), max(offs_), min(diags_), max(diags_), TOL_MIN, TOL_MAX), wh)
+            elif verdict == "det":
+                seen["det"] += 1
+                ctx.ok("C20:predicate:rotation:det")
+                ctx.check(TOL_MIN <= tol <= 1e-3, "C20:predicate:rotation:det-tolerance",
+                          "tolerance on det U is %.3g; window [%g, 1e-3]" % (tol, TOL_MIN), wh)
+            else:
+                ctx.fail("C20:predicate:rotation:orthonormal" if k == 0 else "C20:predicate:rotation:det",
+                         "comparison %d of the rotation check is neither |U'U - I| (or UU') nor |det(U) - 1| against a tolerance: %s"
+                         % (k, core.unparse(node)[:80]), wh)
+            continue
         if not (2 <= len(args) <= 4) or set(kwargs) - {"rtol", "atol"} or (len(args) > 2 and "rtol" in kwargs) or (len(args) > 3 and "atol" in kwargs):
             raise AnalysisError("_check_rotation_matrix: allclose call of unexpected form (line %d)" % node.lineno)
         # allclose(a, b, rtol=1e-05, atol=1e-08): the tolerances may be given by position
@@ -596,6 +650,8 @@ def run(ctx):
     ctx.assumptions += ["numpy.allclose(a, b, rtol, atol) is |a-b| <= atol + rtol*|b| with defaults 1e-5 / 1e-8",
                         "histories are decided through the two-state automaton of the setter and the single-writer rule",
                         "default arguments are evaluated at import, when the switch is in its initial state (on)"]
+    from xfabsa import numeric as _NH
+    _NH.hazard_rule(ctx, 'C20')
     return ("Each of the property's APIs is evaluated by E3 with the switch on and off: on, the right check is called on the "
             "right value before any consuming operation (inputs) or on the returned orientation (outputs); off, no check is "
             "called and the value is the same.  The predicates are evaluated on abstract domains (allclose scenarios with "
